@@ -91,6 +91,18 @@ def stepEvent (run : Run) (ev : String) : EvOut :=
       let calls := String.intercalate ";" (r.calls.reverse.map showCall)
       .out s!"calls={calls} => {showResult res} dls={if run.hold then "-" else showDls r.downlinks}" { run with r := r, rng := g }
     | .error f => .fault (showFault f)
+  | ["alisten"] =>
+    let r0 : DevRun := { run.r with script := items, calls := [], downlinks := (if run.hold then run.r.downlinks else []) }
+    match asyncListen r0 with
+    | .ok (res, r) =>
+      let calls := String.intercalate ";" (r.calls.reverse.map showCall)
+      let sres := match res with
+        | .ok resp => showResult (.ok resp)
+        | .errRadio => showResult .errRadio
+        | .errMac => showResult .errMac
+        | .listening => "Listening"
+      .out s!"calls={calls} => {sres} dls={if run.hold then "-" else showDls r.downlinks}" { run with r := r }
+    | .error f => .fault (showFault f)
   | ["sess", da, up, down] =>
     match parseNat? da, parseNat? up, optNat? down with
     | some da, some up, some down =>
